@@ -309,3 +309,33 @@ func VTV_StructCopy() {
 	vf.Assert(vf.Implies(k == 1, m[1] == 11), "map-symbolic-key")
 	vf.Assert(vf.Implies(k != 1, m[1] == 10), "map-symbolic-key-2")
 }
+
+// Two waiters that wake each other for ever (Signal before Wait) must be
+// recognised as a no-progress cycle, i.e. treated as blocked.
+func VTV_PingPongSpin() {
+	var mu sync.Mutex
+	cond := sync.NewCond(&mu)
+	ready := false
+	served := 0
+	for i := 0; i < 2; i++ {
+		vf.Go(func() {
+			mu.Lock()
+			for !ready {
+				cond.Signal()
+				cond.Wait()
+			}
+			served++
+			mu.Unlock()
+		})
+	}
+	vf.Quiesce()
+	vf.Reach("spinning-treated-as-quiescent")
+	vf.Assert(served == 0, "served-before-ready")
+	mu.Lock()
+	ready = true
+	cond.Broadcast()
+	mu.Unlock()
+	vf.Quiesce()
+	vf.Reach("released")
+	vf.Assert(served == 2, "spinners-not-released-after-progress")
+}
